@@ -134,6 +134,7 @@ int main(int argc, char **argv) {
          * an implementation that adds the differences up instead of or-ing them sees its sum wrap to zero.  x = 2^(32-n) for n <= 31, else x = 1 and 0xff. */
         size_t nn = (size_t)1 << n, win = 32u << 20, span = (nn + win - 1) / win * win; long nviol = 0;
         int xs[2] = { n <= 31 ? 1 << (32 - n) : 1, n <= 31 ? 0 : 0xff };
+        if (xs[0] > 0xff) { fprintf(stderr, "n too small: the difference has to be a byte value\n"); return 2; }
         for (int xi = 0; xi < 2 && xs[xi]; xi++) {
             int fa = memfd_create("a", 0), fb = memfd_create("b", 0);
             if (fa < 0 || fb < 0 || ftruncate(fa, win) || ftruncate(fb, win)) { fprintf(stderr, "memfd failed\n"); return 2; }
